@@ -7,6 +7,19 @@ props = [json.loads(l) for l in open(os.path.join(here, 'properties.jsonl'))]
 # id -> (technique, level text, level note, design ref)
 claimed = {
 
+ 'C11': ('codec-symmetry tables over the type-checked program (tag constants, shared field-order function, single head encoder, sort-before-emit order, encodable static argument types, canonical boundary comparisons)',
+         'NARROW. Only structural symmetry clauses necessary for the round trip are decided; decode(encode(v))==v, shortest-form arithmetic, int64 minimum and timestamp fidelity are value-level and are NOT decided by this check (static analysis cannot reach them).',
+         'Trusts go/types+go/ssa; the clauses are listed in the evidence explanation.', 'DESIGN.md §2 C11'),
+ 'C14': ('sibling-agreement table for the three key derivations, persistence field-completeness table, gen/kill dataflow for PRF reset, must-pass for peer-parameter validation',
+         'NARROW. Decides derivation shape agreement, completeness of session (un)marshalling, PRF reset per KDF block and rejection gates for degenerate peer parameters; equality of both parties\' keys, conformance with SP 800-108 and session independence are numerical and NOT decided.',
+         'Trusts go/types+go/ssa, crypto/ecdh, crypto/rsa, math/big.', 'DESIGN.md §2 C14'),
+ 'C15': ('loop-carried budget shape check, must-pass for MTU and overhead guards, boundary-comparison lint',
+         'NARROW. Decides budget accounting only (budget minus appended chunk size, owner MTU gate, overhead from the raw key, forced break closes the pipe, canonical size boundaries); losslessness/ordering over all sizes, splits and schedules are NOT decided.',
+         'Trusts go/types+go/ssa.', 'DESIGN.md §2 C15'),
+ 'C16': ('must-pass dataflow for dispatch gates, all-paths reply search, value-identity table',
+         'NARROW. Decides the dispatch gates (Receive only when active, unknown modules answer, unread bodies are errors, Done only after IsDone, IsDone from NextModule after completion, devmod writer uses the negotiated MTU); exactly-once in-order delivery across messages and schedules is NOT decided.',
+         'Trusts go/types+go/ssa.', 'DESIGN.md §2 C16'),
+
  'C19': ('effect-confinement scans (global / receiver stores) over the wire-reachable call graph + lockset (guarded-by) dataflow with gen/kill on Lock/Unlock',
          'Structural necessary conditions only: wire-reachable code writes no package-level state, shared server objects are never written through their receivers, the sqlite store signs with the secret it read back, and the service-info pipes access their buffer/error/channels only under their mutexes (one reviewed exception). Race freedom in general, deadlock freedom, lost wake-ups and isolation inside other backends are properties of schedules and are not decided.',
          'Trusts go/types+go/ssa; lock identity is by canonical receiver address within one function; the guarded-field table and its single exception are in /verif/checker/c19.go.', 'DESIGN.md §2 C19'),
